@@ -779,7 +779,14 @@ def eQuantileSortedWith (interp : ERat → Rat → ERat → Rat → EVal) (q : R
   let w1 : Rat := (i2 : Rat) - ix
   let w2 : Rat := 1 - w1
   interp (xs.getD i1 (.fin 0)) w1 (xs.getD i2 (.fin 0)) w2
-def eQuantile (q : Rat) (col : List EVal) : EVal := eQuantileSortedWith eInterp q (eSort (epresent col))
+/-- q outside [0,1] (Prometheus: −∞ for q < 0, +∞ for q > 1) — for a column / window that has a point; nothing otherwise
+    (fixes/C27-quantile-out-of-range.diff; `eQuantileOutOld`: the tree before it fills the value in unconditionally) -/
+def eQuantile (q : Rat) (col : List EVal) : EVal :=
+  if q < 0 then (if (epresent col).length = 0 then none else some .ninf)
+  else if q > 1 then (if (epresent col).length = 0 then none else some .pinf)
+  else eQuantileSortedWith eInterp q (eSort (epresent col))
+def eQuantileOutOld (q : Rat) (_col : List EVal) : EVal :=
+  if q < 0 then some .ninf else some .pinf
 def eQuantileOld (q : Rat) (col : List EVal) : EVal := eQuantileSortedWith eInterpOld q (eSort (epresent col))
 
 /-- math.MaxFloat64 -/
